@@ -267,7 +267,9 @@ class Driver:
             args = []
             for p in f['params']:
                 if p['n'] == 'fsize':
-                    args.append(TOP)
+                    # the caller's idea of the input size: an unknown, named so that tests on it leave a trace in the path condition
+                    s.sym['$fsize'] = (0, 1 << 62)
+                    args.append(sym('$fsize'))
                 elif p['n'] == 'r_buf':
                     args.append(P(RBUF, (0,)))
                 else:
